@@ -2889,3 +2889,122 @@ class _CsuperHead(_IntsHead):
 
 RECIPES += _pair(_CSUPER_PROPS % 2, _CSUPER_PROPS % 3, _CSUPER_TAIL, ["C13-R4"],
                  "wtcsuper: the head of the card from a class with properties, a class attribute and a base class of the module", "the integers start one field late")
+
+# ---- records of module classes: a registry of module-level objects made by a dict comprehension and read with .get, a record whose methods change
+# ---- its fields (in a loop), a function kept in a field
+_T1_REGISTRY = _T1_GUARD_BODY.replace(_T1_GUARD, '''    fmt = _PAIR_FORMATS.get(n)
+    if fmt is None:
+        raise ValueError(f"`form` produces a {n} length string. It must be 16 or 32.")
+''').replace("    if n == 32:\n", "    if fmt.star:\n") + '''
+
+class _PairFormat:
+    """layout of a table card for one rendered width of a [time, data] pair"""
+
+    def __init__(self, width):
+        self.width = width
+        self.star = "*" if width > 16 else ""
+        self.pairs = 64 // width
+
+
+_PAIR_FORMATS = {fmt.width: fmt for fmt in (_PairFormat(16), _PairFormat(%d))}
+'''
+
+_VECWRITE_TAIL = "    length = 1\n    fncs = []\n" + _VECWRITE_LOOP + "    _vecwrite(f, string, length, args, fncs, postfunc, pfargs, so)\n"
+
+_VECWRITE_TRACKER = '''    expected = _VectorLength(so)
+    fncs = []
+    for i, arg in enumerate(args):
+        if not isinstance(arg, str) and hasattr(arg, "__len__"):
+            if np.ndim(arg) == 2:
+                fncs.append(_get_matrow)
+                curlen = np.size(arg, 0)
+            elif len(arg) == 1:
+                fncs.append(_get_scalar1)
+                curlen = 1
+            else:
+                fncs.append(_get_itemi)
+                curlen = len(arg)
+            expected.update(i + 1, curlen)
+        else:
+            fncs.append(_get_scalar)
+    _vecwrite(f, string, expected.length, args, fncs, postfunc, pfargs, so)
+
+
+class _VectorLength:
+    """keeps track of the expected vector length for :func:`vecwrite` while going through the arguments"""
+
+    def __init__(self, so):
+        self.length = 1
+        self._so = so
+
+    def update(self, argno, curlen):
+        if curlen <= 1:
+            return
+        if self.length > 1:
+            self._check(argno, curlen)
+        self.length = curlen
+
+    def _check(self, argno, curlen):
+        length, so = self.length, self._so
+        if so is not None:
+            if range(curlen)[so] != range(length)[so]:
+                msg = (
+                    "length mismatch with slice object:"
+                    f" arg # {argno} is incompatible with "
+                    "previous args"
+                )
+                raise ValueError(msg)
+        elif curlen != length:
+            msg = (
+                f"length mismatch: arg # {argno} has "
+                f"length {curlen}; expected {length} or 1."
+            )
+            raise ValueError(msg)
+'''
+
+_THRU_CARD = '''    length = len(seq)
+    start = 0
+    card = _PendingCard(init_func)
+    while start < length:
+        end = _find_sequence(seq, start)
+        if end > start:
+            if card.has_data():
+                card.flush()
+            card.fields.extend([seq[start], "THRU", seq[end]])
+            start = end + %d
+            card.flush()
+        else:
+            card.fields.append(seq[start])
+            start += 1
+        if card.is_full():
+            card.flush()
+    if card.has_data():
+        wtcard8(f, card.fields)
+
+
+class _PendingCard:
+    """the fields of the card that :func:`_wt_with_thru` is filling up"""
+
+    def __init__(self, init_func):
+        self._init_func = init_func
+        self.fields = init_func([], False)
+        self._init_length = len(self.fields)
+
+    def has_data(self):
+        return len(self.fields) > self._init_length
+
+    def is_full(self):
+        return len(self.fields) == 9
+
+    def flush(self):
+        self.fields = self._init_func(self.fields)
+'''
+
+RECIPES += (
+    _pair(_T1_REGISTRY % 32, _T1_REGISTRY % 24, _T1_GUARD_BODY, ["C13-R1"],
+          "tabled1: the layouts as module-level objects in a registry made by a dict comprehension, the guard by .get(...) is None", "a layout for 24-character pairs")
+    + [("C13", "neutral", [], W, _VECWRITE_TAIL, _VECWRITE_TRACKER,
+        "vecwrite: the expected vector length kept by a record whose method changes its field (called in the loop over the arguments)")]
+    + _pair(_THRU_CARD % 1, _THRU_CARD % 2, _THRU_ALL, ["C13-R4"],
+            "_wt_with_thru: the fields of the pending card in a record with methods that rebind them, the line starter kept in a field", "the element after a run is skipped")
+)
